@@ -316,7 +316,8 @@ func (g *WireGen) val(dst string) string {
 	case "member", "elem", "elems", "members", "pivot":
 		return []string{"a", "b", "c", "d", "zz"}[g.pick(5)] // "zz" is nowhere
 	case "match", "pattern":
-		return []string{"*", "k*", "a*", "?", "[ab]", "f[12]"}[g.pick(6)]
+		// ("[!k]*": to SQLite's GLOB - and so to every documented call - a class holding "!" and "k")
+		return []string{"*", "k*", "a*", "?", "[ab]", "f[12]", "[!k]*", "[[!]*", "[!a-c]*", "k[!1]"}[g.pick(10)]
 	}
 	return wireVals[g.pick(len(wireVals))]
 }
